@@ -14,3 +14,7 @@ Inductive attach_rule :=
 Inductive finding_id_source :=
 | IdIsRuleId        (* Finding(id=rule_id, ...) *)
 | IdIsFindingKey.   (* Finding(id=finding_id, ...): the Sonar issue key *)
+
+(** Which node's argument list `on_result_found` of the argument-replacing hardening codemods rebuilds from:
+    `self.replace_args(original_node, ...)` (children as they were before the traversal) or `updated_node`. *)
+Inductive args_from := FromOriginal | FromUpdated.
